@@ -964,7 +964,9 @@ def _role_like(container, h):
             return True
     if len(ps) == 1 and rets and all(isinstance(r.value, ast.Compare) for r in rets) and 'quota' in src:
         return True
-    if any(isinstance(r.value, ast.Tuple) for r in rets):
+    if any(isinstance(r.value, ast.Tuple) for r in rets) and any(
+            isinstance(x, (ast.For, ast.While)) or (isinstance(x, ast.Call) and isinstance(x.func, ast.Attribute) and x.func.attr in ('elect', 'defeat', 'unpend', 'logAction', 'log'))
+            for x in ast.walk(h)):
         return True
     if any(isinstance(x, ast.For) and any(isinstance(y, ast.Break) for y in ast.walk(x)) for x in ast.walk(h)) and rets:
         return True
@@ -1050,6 +1052,11 @@ def helpers_to_closures(tree):
             if len(users) != 1:
                 continue
             top, refs = next(iter(users.values()))
+            if not cls_name and isinstance(top, ast.ClassDef):
+                # a module-level helper used by one method of one class
+                ms = [m_ for m_ in top.body if isinstance(m_, ast.FunctionDef) and any(any(r_ is x for x in ast.walk(m_)) for r_ in refs)]
+                if len(ms) == 1 and all(any(r_ is x for x in ast.walk(ms[0])) for r_ in refs):
+                    top = ms[0]
             if top is h or not isinstance(top, ast.FunctionDef):
                 continue
             M = top
